@@ -159,3 +159,66 @@ def subclasses(relpath, base):
     """names of the classes of the file that have `base` in their MRO (base excluded), source order"""
     tree, _ = load_module(relpath)
     return [c.name for c in tree.body if isinstance(c, ast.ClassDef) and c.name != base and base in class_mro(relpath, c.name)]
+
+
+# ---------------------------------------------------------------- memoising decorators
+MEMO_DECORATORS = ('lru_cache', 'cache', 'cached_property', 'memoize', 'memoized', 'cached')
+
+
+def memo_decorators(fn):
+    out = []
+    for d in getattr(fn, 'decorator_list', []):
+        text = ast.unparse(d)
+        head = text.split('(')[0].split('.')[-1]
+        if head in MEMO_DECORATORS:
+            out.append(text)
+    return out
+
+
+def _self_attr_reads(fn):
+    """(attributes of `self` read as data, methods of `self` that are called) in the body of fn"""
+    if not fn.args.args:
+        return set(), set()
+    me = fn.args.args[0].arg
+    called, read = set(), set()
+    call_funcs = {id(n.func) for n in ast.walk(fn) if isinstance(n, ast.Call)}
+    for n in ast.walk(fn):
+        if isinstance(n, ast.Attribute) and isinstance(n.value, ast.Name) and n.value.id == me and isinstance(n.ctx, ast.Load):
+            (called if id(n) in call_funcs else read).add(n.attr)
+    return read, called
+
+
+def mutable_self_state_read(relpath, dotted):
+    """attributes of `self` that the method `Class.method` reads (directly or through methods of the same class it calls) and that some
+    method of the class other than __init__/__post_init__ assigns: state a cached result can outlive.  [] for plain functions."""
+    parts = dotted.split('.')
+    if len(parts) < 2:
+        return []
+    cls_node = select(relpath, parts[0])
+    if not isinstance(cls_node, ast.ClassDef):
+        return []
+    methods = {m.name: m for m in cls_node.body if isinstance(m, (ast.FunctionDef, ast.AsyncFunctionDef))}
+    assigned = set()
+    for name, m in methods.items():
+        if name in ('__init__', '__post_init__') or not m.args.args:
+            continue
+        me = m.args.args[0].arg
+        for n in ast.walk(m):
+            if isinstance(n, ast.Attribute) and isinstance(n.value, ast.Name) and n.value.id == me and isinstance(n.ctx, (ast.Store, ast.Del)):
+                assigned.add(n.attr)
+            if isinstance(n, ast.Call) and isinstance(n.func, ast.Name) and n.func.id in ('setattr', 'delattr') and len(n.args) >= 2 \
+                    and isinstance(n.args[0], ast.Name) and n.args[0].id == me:
+                assigned.add(n.args[1].value if isinstance(n.args[1], ast.Constant) else '*')
+    seen, todo, reads = set(), [parts[1]], set()
+    while todo:
+        name = todo.pop()
+        if name in seen or name not in methods:
+            continue
+        seen.add(name)
+        r, c = _self_attr_reads(methods[name])
+        reads |= r
+        # properties are read like data
+        todo.extend(c | {x for x in r if x in methods})
+    if '*' in assigned:
+        return sorted(reads)
+    return sorted(reads & assigned)
